@@ -2620,6 +2620,18 @@ impl<'a, E: quiver_core::effects::Effect> Compiler<'a, E> {
             } else {
                 current_prov
             };
+            // A match narrows the matched value for what runs *after it succeeded*. That is
+            // everything up to the end of the step when the match ends the chain (a failed match
+            // short-circuits the step), but a match followed by more of the same chain does not
+            // short-circuit - its nil verdict just flows on - so the rest of the chain must not
+            // see the success-path narrowing.
+            let match_is_followed =
+                is_match_term && (i < last_index || chain.match_pattern.is_some());
+            let narrowings_before = if match_is_followed {
+                self.scopes.last().map(|s| s.narrowings.clone())
+            } else {
+                None
+            };
             let (term_type, term_prov) = self.compile_term(
                 term.clone(),
                 FlowingValue {
@@ -2631,6 +2643,11 @@ impl<'a, E: quiver_core::effects::Effect> Compiler<'a, E> {
                 narrowing.as_deref_mut(),
                 term_expected,
             )?;
+            if let Some(saved) = narrowings_before
+                && let Some(scope) = self.scopes.last_mut()
+            {
+                scope.narrowings = saved;
+            }
             // Nil flows through a chain like any other value: within a chain, no term
             // short-circuits on nil (a failed mid-chain match yields nil that flows into
             // the next term; the only short-circuit is between `,`-separated chains, handled
